@@ -278,6 +278,11 @@ func decodeBase32(ctx context.Context, obj object.Object) object.Object {
 	if decodeErr != nil {
 		return object.NewError(decodeErr)
 	}
+	// encoding/base32 stops at the padding of the last group: refuse what follows it
+	stripped := bytes.ReplaceAll(bytes.ReplaceAll(data, []byte("\n"), nil), []byte("\r"), nil)
+	if enc.EncodedLen(count) != len(stripped) {
+		return object.NewError(base32.CorruptInputError(enc.EncodedLen(count)))
+	}
 	return object.NewByteSlice(dst[:count])
 }
 
